@@ -18,6 +18,7 @@ type VacSpec struct {
 	Idx     int    `json:"idx,omitempty"`
 	Delta   int64  `json:"delta,omitempty"` // ns added to the reference time
 	Refresh bool   `json:"refresh,omitempty"`
+	ReadErr int    `json:"read_err,omitempty"` // C10: the n-th GET of the vacuum fails cleanly (0 = none)
 }
 
 type VacParams struct {
@@ -46,6 +47,9 @@ func genVac(r *rand.Rand) *VacParams {
 	for i := 0; i < nv; i++ {
 		v := VacSpec{Client: r.IntN(len(mw.Scripts)), Kind: []string{"created", "created", "deleted", "deleted", "past", "future", "now", "far"}[r.IntN(8)],
 			Idx: r.IntN(12), Delta: []int64{0, 0, 1, -1, int64(time.Second), -int64(time.Second), int64(time.Millisecond)}[r.IntN(7)], Refresh: r.IntN(2) == 0}
+		if r.IntN(5) == 0 {
+			v.ReadErr = 1 + r.IntN(10)
+		}
 		p.Vacuums = append(p.Vacuums, v)
 	}
 	return p
@@ -252,6 +256,7 @@ func runVacuum(x *Exec, prop string) {
 			var versBefore, versAfter []string
 			var verr error
 			var vres [][]string
+			readErrFired := false
 			allBefore, err := readRO()
 			if err != nil {
 				x.Fail(prop+"-unexpected-error", "read before vacuum: %v", err)
@@ -263,7 +268,14 @@ func runVacuum(x *Exec, prop string) {
 				rowsBefore, _ = vc.Query("select * from " + t)
 				versBefore, _ = vc.Versions(t)
 				m.BeginStmt(vc)
+				if prop == "C10" && vs.ReadErr > 0 {
+					w.Faults = []*FaultSpec{{Client: vc.Name, Op: OpGet, Nth: vs.ReadErr, Kind: FaultErr}}
+				}
 				vres, verr = vc.Query("select * from s3db_vacuum(?, ?)", t, FmtTime(cut))
+				if len(w.Faults) > 0 {
+					readErrFired = w.Faults[0].Fired > 0
+					w.Faults = nil
+				}
 				rowsAfter, _ = vc.Query("select * from " + t)
 				versAfter, _ = vc.Versions(t)
 			})
@@ -281,6 +293,19 @@ func runVacuum(x *Exec, prop string) {
 					return
 				}
 				continue
+			}
+			if readErrFired && (verr != nil || len(vres) != 1 || vres[0][0] != "null") {
+				// a vacuum that could not read something may fail; it then has deleted nothing it could not account
+				// for, and the same vacuum without the fault does the whole job (checked like any other below)
+				x.Probe("vacuum-failed-on-read-error")
+				w.Solo(vc, func() {
+					m.BeginStmt(vc)
+					vres, verr = vc.Query("select * from s3db_vacuum(?, ?)", t, FmtTime(cut))
+					rowsAfter, _ = vc.Query("select * from " + t)
+					versAfter, _ = vc.Versions(t)
+				})
+			} else if readErrFired {
+				x.Probe("vacuum-succeeded-despite-read-error")
 			}
 			if verr != nil || len(vres) != 1 || vres[0][0] != "null" {
 				x.Fail(prop+"-vacuum-failed", "%s failed without any fault: %v %s", desc, verr, RowsString(vres))
